@@ -33,18 +33,29 @@ import (
 	"github.com/openbao/openbao/v2/internal/zzverif/vh"
 )
 
-// c12RecFactory: secrets backend whose storage key comes verbatim from the request data field `skey`.
+// c12RecFactory: secrets backend whose storage key comes verbatim from the request data field `skey`. With `own` set the
+// backend goes through the storage view it was handed at set-up (conf.StorageView) instead of req.Storage — as the
+// builtin ssh, pki and database backends do for their salt, tidy and rotation state: the property speaks of what "a
+// request handled by a mounted backend" can touch, whichever handle the backend uses.
 func c12RecFactory(ctx context.Context, conf *logical.BackendConfig) (logical.Backend, error) {
 	b := &framework.Backend{BackendType: logical.TypeLogical}
+	kept := conf.StorageView
+	pick := func(req *logical.Request, d *framework.FieldData) logical.Storage {
+		if own, _ := d.Get("own").(bool); own && kept != nil {
+			return kept
+		}
+		return req.Storage
+	}
 	b.Paths = []*framework.Path{{
 		// "raw/<anything>" and the mount root itself (empty relative path)
 		Pattern: "(raw/" + framework.MatchAllRegex("rest") + ")?",
 		Fields: map[string]*framework.FieldSchema{
 			"rest": {Type: framework.TypeString}, "skey": {Type: framework.TypeString}, "value": {Type: framework.TypeString},
+			"own": {Type: framework.TypeBool},
 		},
 		Callbacks: map[logical.Operation]framework.OperationFunc{
 			logical.ReadOperation: func(ctx context.Context, req *logical.Request, d *framework.FieldData) (*logical.Response, error) {
-				e, err := req.Storage.Get(ctx, d.Get("skey").(string))
+				e, err := pick(req, d).Get(ctx, d.Get("skey").(string))
 				if err != nil {
 					return nil, err
 				}
@@ -55,13 +66,13 @@ func c12RecFactory(ctx context.Context, conf *logical.BackendConfig) (logical.Ba
 			},
 			logical.UpdateOperation: func(ctx context.Context, req *logical.Request, d *framework.FieldData) (*logical.Response, error) {
 				v, _ := d.Get("value").(string)
-				return nil, req.Storage.Put(ctx, &logical.StorageEntry{Key: d.Get("skey").(string), Value: []byte(v)})
+				return nil, pick(req, d).Put(ctx, &logical.StorageEntry{Key: d.Get("skey").(string), Value: []byte(v)})
 			},
 			logical.DeleteOperation: func(ctx context.Context, req *logical.Request, d *framework.FieldData) (*logical.Response, error) {
-				return nil, req.Storage.Delete(ctx, d.Get("skey").(string))
+				return nil, pick(req, d).Delete(ctx, d.Get("skey").(string))
 			},
 			logical.ListOperation: func(ctx context.Context, req *logical.Request, d *framework.FieldData) (*logical.Response, error) {
-				ks, err := req.Storage.List(ctx, d.Get("skey").(string))
+				ks, err := pick(req, d).List(ctx, d.Get("skey").(string))
 				if err != nil {
 					return nil, err
 				}
@@ -484,7 +495,8 @@ func (k *c12Case) request(tk *c12Tok, ctxNs int, hdr, path, opn, skey string) {
 		op = logical.ListOperation
 	}
 	value := "v" + strconv.Itoa(tk.ord)
-	data := map[string]any{"skey": skey, "value": value}
+	// every third request makes the backend use the view it kept from its set-up (deterministic: a replay is exact)
+	data := map[string]any{"skey": skey, "value": value, "own": (len(skey)+len(path)+tk.ord)%3 == 0}
 	ctxPath := "none"
 	if ctxNs >= 0 {
 		ctxPath = vh.HexS(k.nss[ctxNs].path)
